@@ -365,9 +365,15 @@ def new_sim(seed):
 # ---------------------------------------------------------------------------
 # fake devices (mimic the failure behaviour of the real ones and nothing more)
 class FakeSerial:
+    """pyserial's posix port as the library sees it, including what a port looks like while another thread is closing it:
+    serialposix.close() releases the descriptors first and clears is_open last, and write / read / in_waiting /
+    cancel_read use the descriptors after an is_open test - a thread arriving in between gets TypeError (descriptor is
+    None) or OSError EBADF, not SerialException (observed on the real pty under vf/realdev.py)."""
+
     def __init__(self, cid, timeout):
         self.cid = cid
         self.is_open = True
+        self.fd_gone = False
         self.buf = bytearray()
         self.err = None
         self.cancel = False
@@ -375,31 +381,42 @@ class FakeSerial:
         self.written = []
         self.write_err = None
 
+    def _half_closed(self):
+        if self.fd_gone:
+            raise TypeError("'NoneType' object cannot be interpreted as an integer")
+
     @property
     def in_waiting(self):
+        self._half_closed()
         return len(self.buf)
 
     def read(self, n=1):
         if not self.is_open:
             raise serial.PortNotOpenError()
+        self._half_closed()
         SIM.block(until=None if self.timeout is None else SIM.now + self.timeout,
-                  pred=lambda: bool(self.buf) or self.err is not None or self.cancel or not self.is_open)
+                  pred=lambda: bool(self.buf) or self.err is not None or self.cancel or not self.is_open or self.fd_gone)
         if self.err is not None:
             e, self.err = self.err, None
             raise e
         self.cancel = False
-        if not self.is_open:
+        if not self.is_open or self.fd_gone:
             return b""
         d = bytes(self.buf[:n])
         del self.buf[:n]
         return d
 
     def cancel_read(self):
-        self.cancel = True
+        if self.is_open:
+            if self.fd_gone:
+                raise OSError(9, "Bad file descriptor")
+            self.cancel = True
 
     def write(self, d):
         if not self.is_open:
             raise serial.PortNotOpenError()
+        SIM.block(pred=lambda: True)        # another thread may close the port between the test and the write
+        self._half_closed()
         if self.write_err is not None:
             e, self.write_err = self.write_err, None
             raise e
@@ -408,9 +425,11 @@ class FakeSerial:
         return len(d)
 
     def close(self):
-        if self.is_open:
-            self.is_open = False
+        if self.is_open and not self.fd_gone:
+            self.fd_gone = True
             SIM.ev("DEV-CLOSE", self.cid)
+            SIM.block(pred=lambda: True)    # descriptors released, is_open still set
+            self.is_open = False
 
 
 class FakeSock:
